@@ -2039,19 +2039,26 @@ func ruleDriver(c *Ctx) {
 	if v := fnOf(sp, "Valid"); v != nil {
 		key := "Valid(data) is checkValid(data, …) == nil"
 		ok := false
+		other := ""
 		for _, r := range liveReturns(v) {
 			rv := retVal(r, 0)
+			is := false
 			if bo, isBo := rv.(*ssa.BinOp); isBo && bo.Op == token.EQL && isNilConst(bo.Y) {
 				if call, isCall := bo.X.(*ssa.Call); isCall {
 					if f := call.Call.StaticCallee(); f != nil && f.Name() == "checkValid" && call.Call.Args[0] == ssa.Value(v.Params[0]) {
-						ok = true
+						ok, is = true, true
 					}
 				}
+			}
+			if !is {
+				other = b.posOf(r)
 			}
 		}
 		v2, why := Discharged, "return checkValid(data, scan) == nil, on the function's own parameter"
 		if !ok {
 			v2, why = Violated, "Valid's result is not `checkValid(data, …) == nil` on its own parameter"
+		} else if other != "" {
+			v2, why = Violated, "Valid also answers at "+other+" with something other than the scanner's verdict: a text the grammar accepts can be refused (or one it refuses accepted) by a second opinion in front of the scanner"
 		}
 		l.add("R-DRIVER", "codec", key, b.rel(v.Pos()), v2, why, true)
 	}
